@@ -185,7 +185,7 @@ inductive Ft | invalid | scalar | list | struct | strMap | intMap
 
 def Ft.toNat : Ft → Nat
   | .invalid => 0 | .scalar => 1 | .list => 2 | .struct => 3 | .strMap => 4 | .intMap => 5
-def Ft.ofNat : Nat → Ft
+def Ft.ofCode : Nat → Ft
   | 1 => .scalar | 2 => .list | 3 => .struct | 4 => .strMap | 5 => .intMap | _ => .invalid
 
 def isIntKeyName (n : Bytes) : Bool :=
@@ -654,10 +654,10 @@ inductive QStep
 
 /-- `(*fieldMap).Get` through `self.fdMask`, which may be nil -/
 def fdGet (cfg : Sites) (self : Mask) (id : Int) : Res MaskOpt :=
-  if !self.fdA then (if cfg.fieldNilFd then .panic .fieldNilFd else .ok .none)
-  else do
-    siteHead cfg id
-    .ok (self.fd.getExist (.i id))
+  do
+    siteHead cfg id          -- the bounds check of head[f] comes before the load through the nil pointer
+    if !self.fdA then (if cfg.fieldNilFd then .panic .fieldNilFd else .ok .none)
+    else .ok (self.fd.getExist (.i id))
 
 /-- Field / Int / Str on a possibly-nil receiver -/
 def query (cfg : Sites) (self : MaskOpt) (q : QStep) : Res (MaskOpt × Bool) :=
@@ -842,42 +842,26 @@ inductive JOuts where
   | cons (j : JOut) (r : JOuts)
 end
 
-/-- insertion into a list sorted by key (sort.Stable on unique keys) -/
-def keyLt : Key → Key → Bool
-  | .i a, .i b => a < b
-  | .s a, .s b => a < b
-  | .i _, .s _ => true
-  | .s _, .i _ => false
-
-def insertKM (k : Key) (m : Mask) : List (Key × Mask) → List (Key × Mask)
-  | [] => [(k, m)]
-  | (k', m') :: r => if keyLt k k' then (k, m) :: (k', m') :: r else (k', m') :: insertKM k m r
-
-def sortKM (l : List (Key × Mask)) : List (Key × Mask) := l.foldr (fun p acc => insertKM p.1 p.2 acc) []
-
-def Kids.size : Kids → Nat
-  | .nil => 0
-  | .cons _ m r => 1 + r.size + Mask.sizeM m
-where Mask.sizeM : Mask → Nat := fun _ => 0
-
 def Key.toJPath : Key → JPath
   | .i n => .int n
   | .s b => .str b
 
 mutual
-/-- marshalRec: `none` = "no children key"; fuel-free structural recursion on the trie -/
+/-- marshalRec: `(false, _)` = no "children" key; structural recursion on the trie -/
 def marshalKids : Mask → Res (Bool × JOuts)
-  | .mk typ isAll isBlack all fdA fd _ ints _ strs =>
-    let m := Mask.mk typ isAll isBlack all fdA fd false ints false strs
-    let allq := m.allQ
-    match allq, all with
-    | true, .none => .ok (false, .nil)
-    | true, .some a =>
-      if a.typ != .invalid then do
-        let (hk, ks) ← marshalKids a
-        .ok (true, .cons (.mk .any a.typ a.isBlack hk ks) .nil)
-      else .ok (true, .nil)
-    | false, _ =>
+  | .mk typ isAll _ all fdA fd _ ints _ strs =>
+    let allq := match typ with
+      | .struct | .list | .intMap | .strMap => isAll
+      | _ => true
+    if allq then
+      match all with
+      | .none => .ok (false, .nil)
+      | .some a =>
+        if a.typ != .invalid then do
+          let (hk, ks) ← marshalKids a
+          .ok (true, .cons (.mk .any a.typ a.isBlack hk ks) .nil)
+        else .ok (true, .nil)
+    else
       match typ with
       | .struct => if !fdA then .panic .marshalNilFd else do
           let ks ← marshalList fd
@@ -889,7 +873,7 @@ def marshalKids : Mask → Res (Bool × JOuts)
           let ks ← marshalList strs
           .ok (true, ks)
       | _ => .err .json
-/-- children in map order (sorted afterwards by `JOuts.sort`), `!Exist()` ones skipped -/
+/-- children in map order (sorted afterwards by `JOut.sorted`), `!Exist()` ones skipped -/
 def marshalList : Kids → Res JOuts
   | .nil => .ok .nil
   | .cons k c r =>
@@ -957,18 +941,15 @@ def transferFrom (cfg : Sites) : Mask → JIn → Res Mask
     let self := (self.setTyp typ).setIsBlack black
     match kids with
     | .nil => .ok (self.setIsAll true)
-    | .cons k0 kr =>
+    | .cons _ _ =>
       match typ with
-      | .scalar =>
-        if k0.path.isAny then do
-          let a ← transferFrom cfg Mask.zero k0
-          .ok ((self.setIsAll true).setAllM (.some a))
-        else .err .json
-      | .struct => transferKids cfg 0 self (.cons k0 kr)
-      | .list | .intMap => transferKids cfg 1 self (.cons k0 kr)
-      | .strMap => transferKids cfg 2 self (.cons k0 kr)
+      | .scalar => transferKids cfg 3 self kids
+      | .struct => transferKids cfg 0 self kids
+      | .list | .intMap => transferKids cfg 1 self kids
+      | .strMap => transferKids cfg 2 self kids
       | .invalid => .ok self
-/-- the three `for _, n := range s.Children` loops; `kind` 0 = Struct, 1 = List/IntMap, 2 = StrMap -/
+/-- the `for _, n := range s.Children` loops; `kind` 0 = Struct, 1 = List/IntMap, 2 = StrMap,
+3 = Scalar (only `Children[0]` is looked at and it must be "*") -/
 def transferKids (cfg : Sites) (kind : Nat) : Mask → JIns → Res Mask
   | self, .nil => .ok self
   | self, .cons n r =>
@@ -993,13 +974,14 @@ def transferKids (cfg : Sites) (kind : Nat) : Mask → JIns → Res Mask
           let child := self.ints.child (.i id) n.typ self.isBlack
           let child' ← transferFrom cfg child n
           transferKids cfg kind (self.setInts (self.ints.put (.i id) child')) r
-      | _ =>
+      | 2 =>
         match n.path.str with
         | none => .err .json
         | some id => do
           let child := self.strs.child (.s id) n.typ self.isBlack
           let child' ← transferFrom cfg child n
           transferKids cfg kind (self.setStrs (self.strs.put (.s id) child')) r
+      | _ => .err .json
 end
 
 /-- UnmarshalJSON on a fresh `FieldMask{}`; `none` = the document is `null` -/
